@@ -14,8 +14,9 @@
     EVERY schedule ([Conc.reach] = every sequence of thread choices), any number of threads, any client programs
     (lists of attach / detach / rlock / runlock / synchronize / retire / publish / unpublish / touch in any order;
     operations the client contract forbids - synchronize, retire or detach inside a section, nesting depth 2^31 -
-    are not executed), any spin fuel.  The buffered flavours are in Properties_C05.v (general_buffered: theorem
-    gpb_no_dispose_inside_old_reader).  general_threaded and signal_buffered have no Coq theorem: they are covered
+    are not executed), any spin fuel.  general_buffered (model LV.Model.RcuBuf, tied to cds/urcu/details/gpb.h by
+    checks/C05.py): theorems C04_gpb_* below, any buffer capacity, counting or non-counting buffer; the exactly-once
+    theorems are in Properties_C05.v.  general_threaded and signal_buffered have no Coq theorem: they are covered
     by exploration of the real code with the same monitors (checks/C05.py), labelled as such in the evidence.
 
     The sentence of C04 about raw_ptr / exempt_ptr ("pointers handed out by RCU containers stay valid until
@@ -25,7 +26,8 @@
     retire call.  The retire discipline belongs to the container models (C13/C15 RCU variants) and their
     harnesses; nothing here claims it. *)
 From Coq Require Import ZArith List String.
-From LV Require Import Base.Conc Base.Events Model.RcuGp Proofs.RcuGpInv Proofs.RcuGpSafe Proofs.RcuGpRefute.
+From LV Require Import Base.Conc Base.Events Model.RcuGp Model.RcuBuf Proofs.RcuGpInv Proofs.RcuGpSafe Proofs.RcuGpRefute
+  Proofs.RcuBufInv Proofs.RcuBufProd.
 Import ListNotations.
 Local Open Scope string_scope.
 
@@ -56,6 +58,27 @@ Theorem C04_gpi_no_dispose_inside_old_reader :
 Proof. exact gpi_dispose_safe_all. Qed.
 Print Assumptions C04_gpi_no_dispose_inside_old_reader.
 
+(** gpb_no_dispose_inside_old_reader (general_buffered): every "dispose p" (by whichever thread runs clear_buffer
+    or the overflow path) at position d is preceded by a "retire p" at some k < d such that every reader that was
+    inside a section at k has left it before d.  Via the grace-period invariant of the gp core and the epoch lemma
+    (LV.Proofs.RcuBufEpoch: an entry tagged e was retired before the fetch_add that returned an epoch >= e).
+    Disposals at Destruct are not events of this trace (Properties_C05: they need "no reader inside"). *)
+Theorem C04_gpb_no_dispose_inside_old_reader :
+  forall (sfuel rf : nat) (cap : Z) (cnt : bool) (ths : list (list RcuBuf.bop)) c,
+    Conc.reach (RcuBuf.binit_cfg 2 sfuel rf cap cnt ths) c ->
+    forall w p d, at_ (Conc.trace c) d w (is_dispose p) ->
+      exists k w', k < d /\ at_ (Conc.trace c) k w' (is_retire p) /\
+        forall r s, open_at (Conc.trace c) r s k -> exists b, k < b < d /\ at_ (Conc.trace c) b r is_runlock0.
+Proof. exact gpb_dispose_safe_all. Qed.
+Print Assumptions C04_gpb_no_dispose_inside_old_reader.
+
+(** gp_synchronize_waits for general_buffered::synchronize (epoch fetch_add + lock + two flips + clear_buffer) *)
+Theorem C04_gpb_synchronize_waits :
+  forall (sfuel rf : nat) (cap : Z) (cnt : bool) (ths : list (list RcuBuf.bop)) c,
+    Conc.reach (RcuBuf.binit_cfg 2 sfuel rf cap cnt ths) c -> sync_waits (Conc.trace c).
+Proof. exact gpb_synchronize_waits_all. Qed.
+Print Assumptions C04_gpb_synchronize_waits.
+
 (** gp_single_flip_refuted (non-vacuity regression): the same model with ONE flip_and_wait in synchronize has a
     reachable trace that violates the statement of C04_gp_synchronize_waits. *)
 Theorem C04_gp_single_flip_refuted :
@@ -80,3 +103,12 @@ Example C04_gpi_dispose_nonvacuous :
   snd r = true /\ List.length (filter (is_cli "dispose") (map snd (fst r))) = 1%nat /\
   List.length (filter (is_cli "touch") (map snd (fst r))) = 1%nat.
 Proof. vm_compute. repeat split; reflexivity. Qed.
+
+(** general_buffered, capacity 2 (non-counting): thread 1 retires objects 1 and 2 while reader 0 is inside a section;
+    thread 2's synchronize runs clear_buffer and disposes both (a disposal by a thread other than the retiring one),
+    after the reader has left *)
+Example C04_gpb_dispose_nonvacuous :
+  let r := RcuBuf.run_case [2; 3000; 2; 0; 40]%Z [[[1]; [3]; [9]; [4]]; [[1]; [6; 1]; [6; 2]]; [[1]; [5]]]%Z
+             [0;0;0;0;0;0;0;0;1;1;1;1;1;1;1;1;1;1;1;2;2;2;2;2;2;2;2;2;2;2;2;2;2;2;0;0;0;0]%nat 5000 in
+  snd r = true /\ map (fun p => ndisp p (filter (fun x => Nat.eqb (fst x) 2) (fst r))) [1; 2]%Z = [1; 1]%nat.
+Proof. vm_compute. split; reflexivity. Qed.
